@@ -35,6 +35,10 @@ func init() {
 		o := newOracleRun("C07", seed)
 		for _, cs := range caseSeeds(seed, n, "C07") {
 			r := rand.New(rand.NewSource(cs))
+			if r.Intn(6) == 0 {
+				c07IdentitySpellings(o, r, cs)
+				continue
+			}
 			f := allFeat()
 			f.Adversarial = r.Intn(3) == 0
 			t := genTree(r, f)
@@ -139,6 +143,91 @@ func init() {
 			}
 		}
 		return o.rep
+	}
+}
+
+// c07IdentitySpellings: raw resource files in which one document spells an identity field in a null-ish or empty
+// way (explicit null in its YAML 1.1/1.2 spellings, empty, absent), alone or beside directives that do not rewrite
+// the name.  Either the build rejects the input or every emitted resource has a non-empty string kind and name.
+func c07IdentitySpellings(o *oracleRun, r *rand.Rand, cs int64) {
+	nullish := []string{"null", "~", "", `""`, "Null", "NULL", "!!null null", "''", "<absent>"}
+	field := func(indent, key, v string) string {
+		if v == "<absent>" {
+			return ""
+		}
+		if v == "" {
+			return indent + key + ":\n"
+		}
+		return indent + key + ": " + v + "\n"
+	}
+	var sb strings.Builder
+	nd := 1 + r.Intn(3)
+	odd := r.Intn(nd)
+	what := ""
+	for i := 0; i < nd; i++ {
+		if i > 0 {
+			sb.WriteString("---\n")
+		}
+		kind, name, ns := pickS(r, []string{"ConfigMap", "Deployment", "Service", "MyKind"}), fmt.Sprintf("r%d", i), "<absent>"
+		if i == odd {
+			v := pickS(r, nullish)
+			switch r.Intn(5) {
+			case 0:
+				kind, what = v, "kind="+v
+			case 1:
+				ns, what = v, "namespace="+v
+			default:
+				name, what = v, "name="+v
+			}
+		}
+		sb.WriteString("apiVersion: " + pickS(r, []string{"v1", "apps/v1", "example.com/v1"}) + "\n")
+		sb.WriteString(field("", "kind", kind))
+		if i == odd && r.Intn(12) == 0 {
+			sb.WriteString("metadata: " + pickS(r, []string{"null", "{}", "~"}) + "\n")
+			what = "metadata-empty"
+		} else {
+			sb.WriteString("metadata:\n" + field("  ", "name", name) + field("  ", "namespace", ns) + "  labels:\n    a: b\n")
+		}
+		sb.WriteString("data:\n  k: v\n")
+	}
+	k := "resources:\n- res.yaml\n"
+	switch r.Intn(5) {
+	case 0:
+		k += "commonLabels:\n  app: x\n"
+	case 1:
+		k += "commonAnnotations:\n  note: y\n"
+	case 2:
+		k += "buildMetadata: [originAnnotations]\n"
+	case 3:
+		k += "sortOptions:\n  order: fifo\n"
+	}
+	fs := filesys.MakeFsInMemory()
+	fs.MkdirAll("/w")
+	fs.WriteFile("/w/res.yaml", []byte(sb.String()))
+	fs.WriteFile("/w/kustomization.yaml", []byte(k))
+	input := map[string]string{"/w/res.yaml": sb.String(), "/w/kustomization.yaml": k, "odd": what}
+	out, err, pnc := safeBuild(func() (string, error) { return runBuild(fs, "/w", nil) })
+	if pnc != nil {
+		o.note("spelling-panic", input)
+		return
+	}
+	if err != nil {
+		o.note("spelling-rejected", input)
+		return
+	}
+	o.note("spelling-accepted", input)
+	docs, perr := parseDocs(out)
+	if perr != nil {
+		o.fail("output-unparsable", "emitted YAML does not parse: "+perr.Error(), cs, input, out, nil)
+		return
+	}
+	for _, d := range docs {
+		kind, _ := d["kind"].(string)
+		md, _ := d["metadata"].(map[string]interface{})
+		name, _ := md["name"].(string)
+		if kind == "" || name == "" {
+			o.fail("missing-kind-or-name", "output resource without kind or name ("+what+")", cs, input, d, nil)
+		}
 	}
 }
 
